@@ -1,5 +1,6 @@
 use crate::constants::{ELREF_ID_PREFIX, ELREF_PREVIOUS};
 use crate::errors::{Result, SvgdxError};
+use std::collections::HashMap;
 use std::fmt::{self, Display};
 use std::str::FromStr;
 
@@ -105,6 +106,9 @@ impl OrderIndex {
 #[derive(Debug, Clone, Default, PartialEq)]
 pub struct AttrMap {
     attrs: Vec<(String, String)>,
+    /// Position of each key in `attrs`, so that lookups and inserts do not scan
+    /// the list (an element may carry a great many attributes).
+    index: HashMap<String, usize>,
 }
 
 impl Display for AttrMap {
@@ -121,7 +125,15 @@ impl Display for AttrMap {
 
 impl AttrMap {
     pub fn new() -> Self {
-        Self { attrs: Vec::new() }
+        Self::default()
+    }
+
+    fn reindex(&mut self) {
+        self.index.clear();
+        for (pos, (k, _)) in self.attrs.iter().enumerate() {
+            // the first entry of a key is the one lookups see
+            self.index.entry(k.clone()).or_insert(pos);
+        }
     }
 
     pub fn is_empty(&self) -> bool {
@@ -153,6 +165,7 @@ impl AttrMap {
 
     fn reorder(&mut self) {
         self.attrs.sort_by_key(|(k, _)| Self::priority(k));
+        self.reindex();
     }
 
     /// Insert-or-update the given key/value into the `AttrMap`.
@@ -160,13 +173,18 @@ impl AttrMap {
     pub fn insert(&mut self, key: impl Into<String>, value: impl Into<String>) {
         let key = key.into();
         let value = value.into();
-        if let Some((_, v)) = self.attrs.iter_mut().find(|(k, _)| *k == key) {
-            *v = value;
+        if let Some(&pos) = self.index.get(&key) {
+            self.attrs[pos].1 = value;
         } else {
+            // Only the few keys with a priority have a place other than the end
+            // (the sort is stable); everything else is already where it belongs.
+            let needs_sort = Self::priority(&key) != usize::MAX;
+            self.index.insert(key.clone(), self.attrs.len());
             self.attrs.push((key, value));
+            if needs_sort {
+                self.reorder();
+            }
         }
-        // TODO: if many attributes are being inserted, might want to defer this
-        self.reorder();
     }
 
     pub fn update(&mut self, other: &Self) {
@@ -184,13 +202,11 @@ impl AttrMap {
     }
 
     pub fn contains_key(&self, key: impl Into<String>) -> bool {
-        let key = key.into();
-        self.attrs.iter().any(|(k, _)| *k == key)
+        self.index.contains_key(&key.into())
     }
 
     pub fn get(&self, key: impl Into<String>) -> Option<&String> {
-        let key = key.into();
-        self.attrs.iter().find(|(k, _)| *k == key).map(|(_, v)| v)
+        self.index.get(&key.into()).map(|&pos| &self.attrs[pos].1)
     }
 
     pub fn iter(&self) -> impl Iterator<Item = (&String, &String)> + '_ {
@@ -199,8 +215,10 @@ impl AttrMap {
 
     pub fn pop(&mut self, key: impl Into<String>) -> Option<String> {
         let key = key.into();
-        if let Some(pos) = self.attrs.iter().position(|(k, _)| *k == key) {
-            Some(self.attrs.remove(pos).1)
+        if let Some(&pos) = self.index.get(&key) {
+            let value = self.attrs.remove(pos).1;
+            self.reindex();
+            Some(value)
         } else {
             None
         }
@@ -216,7 +234,10 @@ impl AttrMap {
 
 impl From<Vec<(String, String)>> for AttrMap {
     fn from(value: Vec<(String, String)>) -> Self {
-        let mut am = Self { attrs: value };
+        let mut am = Self {
+            attrs: value,
+            index: HashMap::new(),
+        };
         am.reorder();
         am
     }
